@@ -1783,6 +1783,7 @@ func c16GenSeqOne(rt *rapid.T) c16Case {
 		c.Max = rapid.SampledFrom([]int{1, 7, 40, 4 << 20}).Draw(rt, "limit")
 	default:
 		c.Max = rapid.IntRange(0, 3).Draw(rt, "max")
+		c.NilRm = rapid.Bool().Draw(rt, "nilrm")
 	}
 	c.IvUs = rapid.SampledFrom(c16Intervals).Draw(rt, "ivus")
 	if rapid.IntRange(0, 7).Draw(rt, "ivmag") == 0 {
